@@ -448,6 +448,57 @@ def _match(pattern: dict, sig: dict) -> bool:
     return True
 
 
+class EntryPoints:
+    """The public ways of reaching one function (defining module and every package-level re-export), used in turn:
+    a wrapper put around a re-export must behave like the function it re-exports."""
+
+    def __init__(self, name, *modules):
+        import importlib
+        self.name = name
+        self.fns = []
+        for m in modules:
+            mod = importlib.import_module(m) if isinstance(m, str) else m
+            if hasattr(mod, name):
+                self.fns.append((getattr(mod, "__name__", str(m)), getattr(mod, name)))
+        if not self.fns:
+            raise Infra(f"{name}: no entry point found in {modules}")
+        self.i = 0
+        self.last = self.fns[0][0]
+
+    def __call__(self, *a, **k):
+        self.last, fn = self.fns[self.i % len(self.fns)]
+        self.i += 1
+        return fn(*a, **k)
+
+
+class ModuleEntryPoints:
+    """Stand-in for `import module as U`: attribute access returns EntryPoints cycling over the defining module and the
+    given re-exporting packages (names not re-exported fall through to the defining module)."""
+
+    def __init__(self, module, *packages):
+        import importlib
+        self._mods = [importlib.import_module(m) if isinstance(m, str) else m for m in (module, *packages)]
+        self._cache = {}
+
+    def __getattr__(self, name):
+        if name.startswith("_"):
+            raise AttributeError(name)
+        v = getattr(self._mods[0], name)
+        import types
+        if not isinstance(v, types.FunctionType):
+            return v                      # modules, constants, classes: the defining module's (instrumentation replaces them there)
+        if name not in self._cache:
+            self._cache[name] = EntryPoints(name, *self._mods)
+        return self._cache[name]
+
+    def __setattr__(self, name, value):
+        if name.startswith("_"):
+            object.__setattr__(self, name, value)
+        else:                             # instrumentation (`patched(S, "np", shim)`) goes to the defining module
+            self._cache.pop(name, None)
+            setattr(self._mods[0], name, value)
+
+
 @contextlib.contextmanager
 def quiet():
     """Swallow stdout of the implementation (discover_network prints progress)."""
